@@ -45,6 +45,32 @@ TEXT = {
         note=COMMON_NOTE + " FNV-1a-128 collision-freeness on the recorded byte streams.",
         technique="TLC model checking of the hash-key mechanism + stateful TLA+ trace validation (history variable: value -> digest)",
         ref="DESIGN.md section 7 C03"),
+    "C04": dict(
+        level="TLC validates every rendering recorded from the crate: the output must be a numeral of the TLA+ grammar, the "
+              "crate's own parser must read it back as the grammar's ParseValue says (so a formatter bug cannot hide behind a "
+              "parser bug), and the re-parsed decimal must relate to the original as the property states per renderer: identical "
+              "digits and scale for {:e}, {:E}, scientific, plain with scale >= 0 and Display outside its padded range; exactly "
+              "-scale written-out zeros (scale 0) for padded Display and plain notation of negative scales; value-equal with an "
+              "exponent divisible by 3 for engineering notation; Display uses an exponent exactly beyond the configured zero "
+              "thresholds and stays within digits + constant characters. Inputs: every digit length 1..40 x every scale -40..60 "
+              "x several digit shapes, zeros with scales -60..80, threshold neighbourhoods, 800/3000-digit strings, scales to "
+              "+-10^15 for the exponent formats, values, references and write_* variants.",
+        note=COMMON_NOTE,
+        technique="TLA+ trace validation with TLC against the numeral grammar and ParseValue of the specification (relational)",
+        ref="DESIGN.md section 7 C04"),
+    "C05": dict(
+        level="MC_Parse (TLC, exhaustive: all 1.95 M strings of length <= 6, thorough 21.4 M of length <= 7, over "
+              "{0,1,7,+,-,.,e,E,_,x,space}) shows the user-level numeral grammar and the anchored mechanism (split at first e/E, "
+              "i128 exponent, split at first '.', concatenation, big-integer parser acceptance) accept the same strings with the "
+              "same values. Conformance over the same finite domain in both directions: TLC prints every numeral and the harness "
+              "parses it through from_str / str::parse / from_str_radix(10) / parse_bytes (numeral => accepted with the denoted "
+              "value); the harness enumerates every string of the domain and records each one any entry point accepts or panics "
+              "on, also under radix 2/16/36 (accepted => numeral, no panic, no other radix); TLC validates both traces. Plus "
+              "grammar-generated numerals to 1200/5000 digits, exponents at +-(2^63 + {-3..3}) with and without fraction digits, "
+              "39/40-digit exponents, byte-level mutations including NUL, non-ASCII digits and invalid UTF-8.",
+        note=COMMON_NOTE,
+        technique="TLC model checking (grammar vs mechanism, exhaustive strings) + TLC-generated numerals replayed + TLA+ trace validation of the exhaustive accepted-string trace",
+        ref="DESIGN.md section 7 C05"),
     "C06": dict(
         level="MC_Round (TLC, exhaustive: |unscaled| <= 1200 quick / 9999 thorough x scales -3..8 x all targets within 4 of either "
               "end x 7 modes, 2.5 M / 24 M states) shows the mechanism-level RoundToScale (digit pair at the rounding point, tail "
@@ -68,6 +94,17 @@ TEXT = {
         note=COMMON_NOTE,
         technique="TLC model checking + TLC-generated exhaustive small scope replayed on the crate + TLA+ trace validation",
         ref="DESIGN.md section 7 C07"),
+    "C16": dict(
+        level="The specification defines {:.N} as: a numeral with exactly N fraction digits whose value is RoundToScale(x, N, "
+              "configured mode) - the same operator that decides C06 - or, for integers whose padding would exceed the limit, an "
+              "unpadded numeral denoting exactly x; {:.Ne}/{:.NE} as N mantissa fraction digits and the value RoundToPrec(x, N+1, "
+              "mode); and width/fill/alignment/'+'/'0' as std's padding around the flag-free numeral. TLC-printed small decimals "
+              "(|unscaled| <= 300 / 2000, scales -3..8) are formatted for every N in 0..9 in the three notations on values and "
+              "references; the driver adds 300-digit inputs, scales -1100..400, N to 1100 around the padding limit, ties, all "
+              "nines, values below half a unit, all 36 flag combinations x widths. TLC validates every event.",
+        note=COMMON_NOTE + " The padding model follows std::fmt::Formatter::pad_integral.",
+        technique="TLC model checking of rounding (MC_Round) + TLC-generated exhaustive small scope replayed + TLA+ trace validation",
+        ref="DESIGN.md section 7 C16"),
     "C18": dict(
         level="TLC validates traces of constructors, accessors, digits()/count_digits(), normalized(), with_scale / "
               "to_owned_with_scale / with_prec extension against the representation-level operators of the TLA+ "
